@@ -3,6 +3,7 @@ package props
 import (
 	"fmt"
 	"math"
+	"sort"
 
 	"github.com/reactivego/ivg"
 	"github.com/reactivego/ivg/generate"
@@ -46,7 +47,7 @@ func init() {
 				}
 				return 150_000
 			}, Run: c20Converter,
-				Min: map[string]int64{"strings": 100000, "with_opacity": 20000, "opacity_register_reused": 5000, "circles": 20000, "circle_only_paths": 1000, "offsets_nonzero": 20000}},
+				Min: map[string]int64{"strings": 100000, "with_opacity": 20000, "opacity_register_reused": 5000, "circles": 20000, "circle_only_paths": 1000, "offsets_nonzero": 20000, "icons_with_six_distinct_opacities": 2000}},
 			{Name: "concat", N: func(t string) uint64 {
 				if t == "thorough" {
 					return 8_000_000
@@ -182,6 +183,16 @@ func c20Generator(c *run.Ctx, idx uint64) {
 			fsx = -fsx
 		}
 		ftx, fty := float32(r.Uniform(-100, 100)), float32(r.Uniform(-100, 100))
+		if r.Chance(1, 4) {
+			// scale factors a fast path might single out: exactly 1 (a pure translation), -1, powers of two
+			fsx, fsy = float32(r.PickF(1, 1, -1, 2, 0.5)), float32(r.PickF(1, 1, -1, 2, 0.5))
+			if fsx == 1 && fsy == 1 {
+				c.Count("pure_translation_transforms", 1)
+			}
+		}
+		if r.Chance(1, 10) {
+			ftx, fty = 0, 0
+		}
 		switch mode {
 		case 1: // uniform scale, then translate
 			fsy = fsx
@@ -197,7 +208,10 @@ func c20Generator(c *run.Ctx, idx uint64) {
 			sx, sy, tx, ty = float64(fsx), float64(fsy), float64(ftx), float64(fty)
 			tdesc = fmt.Sprintf("Aff3{%g,0,%g,0,%g,%g}", fsx, ftx, fsy, fty)
 		case 4: // three factors
-			f2 := float32(r.PickF(0.5, 2, 3))
+			f2 := float32(r.PickF(0.5, 2, 3, 1))
+			if r.Chance(1, 4) && (fsx == 2 || fsx == 0.5) {
+				f2 = 1 / fsx // the factors cancel: net scale exactly 1 in x
+			}
 			g.SetTransform(generate.Scale(fsx, fsy), generate.Translate(ftx, fty), generate.Scale(f2))
 			sx, sy, tx, ty = float64(fsx)*float64(f2), float64(fsy)*float64(f2), float64(ftx)*float64(f2), float64(fty)*float64(f2)
 			tdesc = fmt.Sprintf("Scale(%g,%g) Translate(%g,%g) Scale(%g)", fsx, fsy, ftx, fty, f2)
@@ -327,6 +341,10 @@ func c20Converter(c *run.Ctx, idx uint64) {
 	wantAdj := map[float32]uint8{}
 	opacities := []float32{0.3, 0.54, 0.87, 0.38, 0.26, 0.12, 0.9, 0.5, 0.2, 0.7, 0.6, float32(r.Intn(100)) / 100}
 	nPaths := r.Range(1, 5)
+	many := r.Chance(1, 4) // an icon with many paths and as many distinct opacities as there are registers for (six)
+	if many {
+		nPaths = r.Range(6, 10)
+	}
 	h := uint64(0)
 	for pi := 0; pi < nPaths; pi++ {
 		p := &mdicons.Path{}
@@ -335,14 +353,23 @@ func c20Converter(c *run.Ctx, idx uint64) {
 			p.D, ops = gen.PathString(r, false)
 		}
 		opacity := float32(1)
-		if r.Chance(1, 2) && len(wantAdj) < 6 || len(wantAdj) > 0 && r.Chance(1, 3) {
+		wantNew := r.Chance(1, 2)
+		if many {
+			wantNew = r.Chance(4, 5)
+		}
+		if wantNew && len(wantAdj) < 6 || len(wantAdj) > 0 && r.Chance(1, 3) {
 			// a new opacity (while fewer than 6 exist) or one already used
-			if len(wantAdj) < 6 && r.Bool() {
+			if len(wantAdj) < 6 && (many || r.Bool()) {
 				opacity = opacities[r.Intn(len(opacities))]
 			} else {
+				// one already used: chosen by value, not by map order (replays are deterministic)
+				var used []float64
 				for o := range wantAdj {
-					opacity = o
-					break
+					used = append(used, float64(o))
+				}
+				sort.Float64s(used)
+				if len(used) > 0 {
+					opacity = float32(used[r.Intn(len(used))])
 				}
 			}
 			if opacity == 0 || opacity == 1 {
@@ -453,6 +480,9 @@ func c20Converter(c *run.Ctx, idx uint64) {
 		}
 	}
 	c.Eval(h, true)
+	if len(wantAdj) == 6 {
+		c.Count("icons_with_six_distinct_opacities", 1)
+	}
 	if len(adjs) != len(wantAdj) {
 		c.Violate("converter/opacity-register-count", map[string]interface{}{"registers": fmt.Sprint(adjs), "expected": fmt.Sprint(wantAdj)})
 	}
